@@ -32,6 +32,7 @@ def statefulCase (suite : String) (hdr : List String) (body : List (List String)
   | "dbin" => some (FilesDrv.handleDbin hdr body)
   | "index" => some (IndexDrv.handle hdr body)
   | "filesrc" => some (FileDrv.handleFileSrc hdr body)
+  | "faults" => some (FileDrv.handleFaults hdr body)
   | "resolver" => some (FileDrv.handleResolver hdr body)
   | "stream" => some (StreamDrv.handle hdr body)
   | _ => none
